@@ -229,7 +229,7 @@ Proof.
     destruct (_ || _); [|split; [exact Hi | reflexivity]].
     match goal with |- tinv (enqueue ?a _) /\ _ => assert (H2 : tinv a) end.
     { apply tinv_set_rcv_nxt; [exact Hi | apply wadd_u32]. }
-    split; [apply tinv_enqueue; [exact H2 | apply hok_ack_hdr; exact H2] | apply enqueue_st]. }
+    split; [apply tinv_enqueue; [exact H2 | apply hok_ack_hdr; exact H2] | rewrite enqueue_st; reflexivity]. }
   destruct H1 as [H1 E1]. clearbody t1.
   destruct (st t1) eqn:Hst; try exact H1.
   - apply tinv_set_st; [exact H1 | rewrite Hst; reflexivity].
@@ -261,7 +261,7 @@ Qed.
 Lemma tinv_arrives_loop fuel : forall t t1 r, tinv t -> arrives_loop fuel t = Ok (t1, r) -> tinv t1.
 Proof.
   induction fuel as [|f IH]; intros t t1 r Hi; cbn [arrives_loop]; [discriminate|].
-  destruct (heap_peek (in_segs t)); [|intros [= <- <-]; exact Hi].
+  destruct (heap_peek (in_segs t)) as [top|]; [|intros [= <- <-]; exact Hi].
   destruct (_ && _); [intros [= <- <-]; exact Hi|].
   destruct (heap_pop (in_segs t)) as [[s rest]|] eqn:Ep; [|discriminate].
   destruct (heap_pop_Forall sok _ _ _ (i_in _ Hi) Ep) as [Hs Hr].
@@ -299,13 +299,13 @@ Proof.
     - hok_tac. }
   apply tinv_set_in_segs; [exact H1|].
   apply heap_push_Forall; [apply H1|].
-  unfold sok, hok. tcb_cbn. repeat split; auto. discriminate.
+  hok_tac.
 Qed.
 Lemma hok_arrives_listen s iss m h : sok s -> arrives_listen s iss m = LResponse h -> hok h.
 Proof.
   intros Hs. unfold arrives_listen.
   destruct (c_rst _); [discriminate|]. destruct (c_ack _) eqn:Hack.
-  - intros [= <-]. unfold hok. tcb_cbn. repeat split; auto with tinv; try apply Hs. discriminate.
+  - intros [= <-]. destruct Hs as (Hq & Ha & Hw). hok_tac.
   - destruct (c_syn _); discriminate.
 Qed.
 
